@@ -1027,7 +1027,7 @@ def build_fortran_definition(
             if (
                 literal.isdigit()
                 and re.search(r'\*\*\(*-?$', before)
-                and not re.match(r'\)*\*\*', after)
+                and not after.startswith('**')
             ):
                 return literal
 
